@@ -40,6 +40,7 @@ pub fn profile() -> Profile {
     p.unused_structs = (0, 1);
     p.nonascii = 2;
     p.vin_as_storage = 1;
+    p.out_as_storage = 2;
     p
 }
 
